@@ -190,7 +190,7 @@ Lemma SimX_close ex c L s : SimX ex c L -> (ex = None \/ ex = Some (st_id s)) ->
 Proof.
   intros [] Hex. pose proof (Frame_close_stream _ c s) as [].
   constructor.
-  - congruence.
+  - rewrite sc_initWin_close_stream. assumption.
   - rewrite sc_clientWindow_close_stream. assumption.
   - rewrite sc_strms_close_stream. intros s0 Hs _.
     pose proof (strms_del_not_In _ _ _ sim_nodup0 Hs) as Hne. apply strms_del_In in Hs.
